@@ -44,8 +44,11 @@ impl mpsc::Receiver<HtlcAcceptedResponse> {
     #[verifier::external_body]
     pub fn recv(&mut self, Tracked(w): Tracked<&mut World>) -> (r: Option<HtlcAcceptedResponse>)
         requires !old(w).lock_held,
-        ensures rely(World { fail_sent: true, ..*old(w) }, *final(w)), final(w).fail_sent,
+        ensures rely(World { fail_sent: true, fail_received: final(w).fail_received, ..*old(w) }, *final(w)), final(w).fail_sent,
             r is Some ==> r->0 is Fail,
+            // the value taken out of the channel is remembered (ghost): the lifecycle must answer with it
+            r is Some ==> final(w).fail_received == Some(resp_abs(r->0)),
+            r is None ==> final(w).fail_received == old(w).fail_received,
             !old(w).released ==> r is Some,
     { unimplemented!() }
 }
